@@ -16,6 +16,7 @@ theorem FreshRes.callPure (name : String) (args : List (String × RVal)) (div0 :
   have := fun a => Allocates.listItems a
   have := fun a n p => Allocates.argGet a n p
   have := fun v p => Allocates.asStringM v p
+  have := fun r p => FreshRes.dateResM (A := fun _ => False) r p
   have := fun a b p => FreshRes.nativeAdd (A := fun _ => False) a b p
   have := fun a b p => FreshRes.nativeSub (A := fun _ => False) a b p
   have := fun a b p => FreshRes.nativeMul (A := fun _ => False) a b p
@@ -25,5 +26,6 @@ theorem FreshRes.callPure (name : String) (args : List (String × RVal)) (div0 :
   split at h <;> first
     | (exfalso; simp [mutators, passThrough] at hn; done)
     | (injection h with h; subst h; fresh!)
+    | (exact FreshRes.callDate _ _ _ _ h)
     | (cases h)
 end Ckl
